@@ -51,8 +51,17 @@ def concrete_state(it, net, users):
     S.out_elem = lambda i: _ite([(i == k, L(x)) for k, x in enumerate(net.outputs)], nolabel)
     S.in_cnt = lambda l: _ite([(l == L(x), z3.IntVal(net.inputs.count(x))) for x in dict.fromkeys(net.inputs)], z3.IntVal(0))
     S.out_cnt = lambda l: _ite([(l == L(x), z3.IntVal(net.outputs.count(x))) for x in dict.fromkeys(net.outputs)], z3.IntVal(0))
-    S.b_member, S.b_name = z3.BoolVal(False), z3.Const('noblock', LabelSort)
-    S.bg = S.bi = S.bo = (lambda l: z3.IntVal(0))
+    blocks = net.blocks or {}
+    if len(blocks) > 1:
+        raise Unsupported('conformance: the abstract heap tracks one generic block')
+    if blocks:
+        (bn, b), = blocks.items()
+        S.b_member, S.b_name = z3.BoolVal(True), L(bn)
+        mk = lambda xs: (lambda l: _ite([(l == L(x), z3.IntVal(list(xs).count(x))) for x in dict.fromkeys(xs)], z3.IntVal(0)))      # noqa: E731
+        S.bg, S.bi, S.bo = mk(b['gates']), mk(b['inputs']), mk(b['outputs'])
+    else:
+        S.b_member, S.b_name = z3.BoolVal(False), z3.Const('noblock', LabelSort)
+        S.bg = S.bi = S.bo = (lambda l: z3.IntVal(0))
     S.size = z3.IntVal(len(gates))
     rk = N.rank(net)
     S.rank = lambda l: _ite([(l == L(g), z3.IntVal(rk[g])) for g in gates], z3.IntVal(0))
@@ -114,6 +123,15 @@ def expected_facts(it, S, net, users, universe):
             out.append((f'cnt({x},{y})', S.cnt(lx, L(y)) == (us.count(y) if us is not None else 0)))
         out.append((f'in_cnt({x})', S.in_cnt(lx) == net.inputs.count(x)))
         out.append((f'out_cnt({x})', S.out_cnt(lx) == net.outputs.count(x)))
+    blocks = net.blocks or {}
+    if not blocks:
+        out.append(('no-block', z3.Not(S.b_member)))
+    elif len(blocks) == 1:
+        (bn, b), = blocks.items()
+        out.append(('block-present', z3.And(S.b_member, S.b_name == L(bn))))
+        for x in universe:
+            out.append((f'block-counts({x})', z3.And(S.bg(L(x)) == list(b['gates']).count(x), S.bi(L(x)) == list(b['inputs']).count(x),
+                                                     S.bo(L(x)) == list(b['outputs']).count(x))))
     out.append(('in_n', S.in_n == len(net.inputs)))
     out.append(('out_n', S.out_n == len(net.outputs)))
     for k, x in enumerate(net.inputs):
@@ -157,7 +175,8 @@ def run_case(make_it, contract_factory, net, method, extra_labels=(), max_tuples
               z3.ForAll([g, i], S.uelem(g, i) == SC.uelem(g, i)),
               S.in_n == SC.in_n, S.out_n == SC.out_n, z3.ForAll([i], S.in_elem(i) == SC.in_elem(i)), z3.ForAll([i], S.out_elem(i) == SC.out_elem(i)),
               z3.ForAll([g], S.in_cnt(g) == SC.in_cnt(g)), z3.ForAll([g], S.out_cnt(g) == SC.out_cnt(g)),
-              z3.Not(S.b_member), z3.ForAll([g], z3.And(S.bg(g) == 0, S.bi(g) == 0, S.bo(g) == 0)), S.size == SC.size,
+              S.b_member == SC.b_member, z3.Implies(SC.b_member, S.b_name == SC.b_name),
+              z3.ForAll([g], z3.And(S.bg(g) == SC.bg(g), S.bi(g) == SC.bi(g), S.bo(g) == SC.bo(g))), S.size == SC.size,
               z3.ForAll([g], S.rank(g) == SC.rank(g))]
         for a in ax:
             ctx.assume(a)
@@ -173,6 +192,10 @@ def run_case(make_it, contract_factory, net, method, extra_labels=(), max_tuples
             CM.fresh_state = real_fresh
         if used:
             pin(ctx, used[0])
+        hh = getattr(args[0], 'holder', None) if args else None
+        if hh is not None and hasattr(hh, 'other_block'):
+            x = z3.Const('X!pin', LabelSort)
+            ctx.assume(z3.ForAll([x], z3.Not(hh.other_block(x))))          # the concrete circuit has no block besides the tracked one
         ctx._conf = (args, kwargs, st)
         fv = it.get_function(c.relpath, c.qualname)
         if hasattr(c, 'execute'):
